@@ -15,7 +15,8 @@ PROPERTY = "C14"
 RULE = ("(a) data spec (1-3 dims, identity/affine coordinates) x expression tree (depth<=4) over + - * / ** with constants on either side "
         "and attributes (stored float/int, pixel, world, earlier derived) x every view form; read as a bare link and as an added derived "
         "attribute; (b) function links from a pool (vectorised, ravel-returning, constant-returning, two-input); (c) parsed text "
-        "expressions from a grammar ({tag} with inner spaces, numpy/math calls, constants only); (d) histories of add_component / "
+        "expressions from a grammar ({tag} with inner spaces, numpy/math calls, constants only), 1-3 layers where a later expression may "
+        "refer to an earlier parsed attribute, view read before the full read; (d) histories of add_component / "
         "add_component_link / remove_component / update_id. Oracle: numpy evaluation on full inputs; dependency-graph model. "
         "Non-trivial (a-c) = expression mixes a broadcast input (pixel/world) with a stored one at depth>=2, or a proper view; "
         "(d) = a removal with >=1 transitive dependent and >=1 survivor, or an update_id with a dependent; distinct by spec hash.")
@@ -197,37 +198,54 @@ def fn_parsed(spec, rec):
     dspec = spec["data"]
     data = gen.build_data(dspec)
     shape = tuple(dspec["shape"])
-    refs = spec["refs"]
-    tags = ["t%d" % i for i in range(len(refs))]
-    cmd = spec["template"]
-    env = {"np": np, "math": math, "numpy": np}
-    model_cmd = cmd
-    for i, t in enumerate(tags):
-        for form in ("{%s}" % t, "{ %s }" % t, "{%s }" % t):
-            model_cmd = model_cmd.replace(form, "V%d" % i)
-        env["V%d" % i] = gen.ref_values(dspec, refs[i]).astype(float)
-    with np.errstate(all="ignore"):
-        full = eval(model_cmd, env)
-    full = np.broadcast_to(np.asarray(full, dtype=float), shape)
-    references = {t: gen.ref_cid(data, r) for t, r in zip(tags, refs)}
-    pc = ParsedCommand(cmd, references)
-    to = ComponentID("parsed", parent=data)
-    link = ParsedComponentLink(to, pc)
-    data.add_component_link(link)
+    layers = spec.get("layers") or [{"template": spec["template"], "refs": spec["refs"]}]
     vs = spec["view"]
     view = gen.build_view(vs, shape)
-    uses_tags = any(("{" in cmd, ))
-    try:
-        compare(data[to], full, "parsed/full" + ("" if uses_tags else "/constant"))
-        compare(data[to, view], full if view is None else full[view], "parsed/view/%s%s" % (vs[0], "" if uses_tags else "/constant-expression"))
-    except Mismatch:
-        raise
-    except Exception as e:  # noqa
-        if blame(e)[0] != "glue":
+    made = []          # (cid, full model values) of the parsed attributes defined so far; later layers may refer to them
+    nested = False
+    for li, layer in enumerate(layers):
+        refs = layer["refs"]
+        tags = ["t%d" % i for i in range(len(refs))]
+        cmd = layer["template"]
+        env = {"np": np, "math": math, "numpy": np}
+        model_cmd = cmd
+        references = {}
+        for i, t in enumerate(tags):
+            for form in ("{%s}" % t, "{ %s }" % t, "{%s }" % t):
+                model_cmd = model_cmd.replace(form, "V%d" % i)
+            if refs[i][0] == "parsed":
+                if not made:
+                    refs = list(refs)
+                    refs[i] = gen.numeric_refs(dspec)[0]
+                else:
+                    cid_prev, vals_prev = made[refs[i][1] % len(made)]
+                    env["V%d" % i] = vals_prev
+                    references[t] = cid_prev
+                    nested = nested or ("{t%d}" % i in cmd or "{ t%d }" % i in cmd or "{t%d }" % i in cmd)
+                    continue
+            env["V%d" % i] = gen.ref_values(dspec, refs[i]).astype(float)
+            references[t] = gen.ref_cid(data, refs[i])
+        with np.errstate(all="ignore"):
+            full = eval(model_cmd, env)
+        full = np.broadcast_to(np.asarray(full, dtype=float), shape)
+        pc = ParsedCommand(cmd, references)
+        to = ComponentID("parsed%d" % li, parent=data)
+        data.add_component_link(ParsedComponentLink(to, pc))
+        made.append((to, full))
+        uses_tags = "{" in cmd
+        tag = ("" if uses_tags else "/constant") + ("/nested" if li and nested else "")
+        try:
+            # the view first: what a viewer asks for, and nothing has been evaluated before it
+            compare(data[to, view], full if view is None else full[view], "parsed/view/%s%s" % (vs[0], tag + ("-expression" if not uses_tags else "")))
+            compare(data[to], full, "parsed/full" + tag)
+        except Mismatch:
             raise
-        raise Mismatch("parsed-raises/%s" % type(e).__name__, repr(e))
+        except Exception as e:  # noqa
+            if blame(e)[0] != "glue":
+                raise
+            raise Mismatch("parsed-raises/%s%s" % (type(e).__name__, "/nested" if li and nested else ""), repr(e))
     rec.nt(gen.view_is_proper(vs, shape))
-    rec.label("parsed:" + ("tags" if uses_tags else "constant"), "view:" + vs[0])
+    rec.label("parsed:" + ("tags" if uses_tags else "constant"), "view:" + vs[0], "layers:%d" % len(layers), "nested-parsed" if nested else "flat")
 
 
 # --------------------------------------------------------------------------- histories
@@ -396,8 +414,11 @@ TEMPLATES = ["{t0} + 2 * {t1}", "{ t0 } * {t1 } - 1", "np.sqrt(np.abs({t0}))", "
 def parsed_cases(draw):
     dspec = draw(gen.data_spec(max_dims=3, max_side=4, kinds=("float", "int"), max_comps=2))
     nums = gen.numeric_refs(dspec)
-    return {"data": dspec, "template": draw(st.sampled_from(TEMPLATES)), "refs": [draw(st.sampled_from(nums)), draw(st.sampled_from(nums))],
-            "view": draw(gen.view_spec(dspec["shape"]))}
+    layers = []
+    for li in range(draw(st.sampled_from([1, 1, 2, 3]))):
+        ref = st.sampled_from(nums) if li == 0 else st.one_of(st.sampled_from(nums), st.tuples(st.just("parsed"), st.integers(0, 2)).map(list))
+        layers.append({"template": draw(st.sampled_from(TEMPLATES)), "refs": [draw(ref), draw(ref)]})
+    return {"data": dspec, "layers": layers, "view": draw(gen.view_spec(dspec["shape"]))}
 
 
 idx = st.integers(0, 6)
